@@ -107,10 +107,13 @@ Lemma perm_types_sound w : forall c b, wf_blob b -> perm_types c <> [] -> matche
 Proof.
   assert (Hfield : forall (p : option (N * pval)) v b, wf_blob b -> exact_type p = Some v ->
             forallb (fun x => x) (c_perm p b) = true -> typed_by [v] b = true).
-  { intros p v b Hw He Hp. unfold exact_type in He. destruct p as [[pa [|pv|vs]]|]; try discriminate.
-    destruct (N.eqb_spec pa attr_node_type) as [->|]; [|discriminate]. injection He as ->.
-    cbn in Hp. rewrite andb_true_r in Hp. apply andb_true_iff in Hp as [_ Hp].
-    unfold typed_by. cbn. rewrite orb_false_r. apply Hw. exact Hp. }
+  { intros p v b Hw He Hp. unfold exact_type in He. destruct p as [[pa [|pv|vs|pv okv]]|]; try discriminate.
+    - destruct (N.eqb_spec pa attr_node_type) as [->|]; [|discriminate]. injection He as ->.
+      cbn in Hp. rewrite andb_true_r in Hp. apply andb_true_iff in Hp as [_ Hp].
+      unfold typed_by. cbn. rewrite orb_false_r. apply Hw. exact Hp.
+    - destruct (N.eqb_spec pa attr_node_type) as [->|]; [|discriminate]. injection He as ->.
+      cbn in Hp. rewrite andb_true_r in Hp. apply andb_true_iff in Hp as [_ Hp]. apply andb_true_iff in Hp as [Hp _].
+      unfold typed_by. cbn. rewrite orb_false_r. apply Hw. exact Hp. }
   induction c as [a ct ac p wh sz r pf rl|o x y a ct ac p wh sz r pf rl IHx IHy] using cst_ind'; intros b Hw Hne Hm;
     pose proof (matches_fields _ _ _ _ _ _ _ _ _ _ _ _ Hm) as (Hl & _ & _ & Hp & _); rewrite perm_types_unfold in Hne |- *.
   - destruct (exact_type p) as [v|] eqn:E; [|exfalso; apply Hne; reflexivity]. eapply Hfield; eauto.
